@@ -443,6 +443,7 @@ class OrderDomain(NormDomain):
         head = {}
         entry_vals = {}
         int_heads = {}
+        followed, lost = [], []
         for nm in sorted(carried):
             if nm == lv or nm not in frame.env:
                 continue
@@ -459,6 +460,7 @@ class OrderDomain(NormDomain):
                     return g if hasattr(g, 'node') and isinstance(getattr(g, 'node', None), ast.FunctionDef) else None
                 return None
             if r is not None and not (isinstance(v, Const) and isinstance(v.v, int) and (_is_counter(node.body, nm) or _is_slot_index(node.body, nm, _resolve))):
+                followed.append(nm)
                 k = self.match_explicit(r, fam, pv)
                 if k is not None:
                     head[nm] = k - lo_i
@@ -472,7 +474,16 @@ class OrderDomain(NormDomain):
                 frame.env[nm] = self.sym(an)
                 int_heads[nm] = an
             else:
+                if r is None:
+                    lost.append(nm)
                 frame.env[nm] = Unknown('loop-carried %s' % nm)
+        if not head and (lost or not followed):
+            # nothing to judge: the sweep keeps its polynomials somewhere this rule does not read (attributes of an object, a helper's
+            # state), or the values that enter the loop were not followed.  That is a refusal, not a report about the base cases.
+            self.log.append({'kind': 'refuse', 'ok': None, 'fn': qual, 'node': node,
+                             'text': '%s: the recurrence loop at line %d carries no followed polynomial in its local names (%s): the sweep is not in the form the ORDER rule reads'
+                                     % (qual, getattr(node, 'lineno', 0), ('not followed: %s' % ', '.join(sorted(lost))) if lost else 'no local is carried')})
+            return False
         if not head:
             self.log.append({'kind': 'loop', 'ok': False, 'fn': qual, 'node': node,
                              'text': 'no loop-carried name holds a reference polynomial of order 0..4 at loop entry (entry values do not match the %s base cases)' % fam})
